@@ -72,7 +72,7 @@ package netlist
 //@     invariant forall k int :: 0 <= k && k < len(out) ==> el6(out[k])
 //@     invariant forall a int, b int :: 0 <= a && a < b && b < len(out) ==> plast(out[a].addr.v, out[a].bits) < out[b].addr.v
 //@     invariant forall k int :: 0 <= k && k < len(out) ==> exists j int :: 0 <= j && j < it0 && out[k] == list.e[j]
-//@     invariant forall j int :: 0 <= j && j < it0 ==> exists k int :: 0 <= k && k < len(out) && out[k].addr.v <= list.e[j].addr.v && plast(list.e[j].addr.v, list.e[j].bits) <= plast(out[k].addr.v, out[k].bits)
+//@     invariant[slow] forall j int :: 0 <= j && j < it0 ==> exists k int :: 0 <= k && k < len(out) && out[k].addr.v <= list.e[j].addr.v && plast(list.e[j].addr.v, list.e[j].bits) <= plast(out[k].addr.v, out[k].bits)
 //@     invariant it0 > 0 ==> out[len(out)-1].addr.v <= list.e[it0-1].addr.v
 
 // Contains: binary search for the last block starting at or before the address.
